@@ -482,6 +482,7 @@ def lister_skip_conditions(rep, ctx, fn_path, label, entry_name_leaf, extra_leaf
     """explore a directory lister for ONE entry that is a regular file with a valid name; -> [(atoms-level predicate text builder)] for the
     paths on which that entry is NOT put on the list. Each item: list of (kind, a_term, b_term, value)."""
     eng = ctx.engine(loop_bound=1, max_paths=4000)
+    eng.auto_inline = ctx.new_function_auto()
     paths = eng.explore(fn_path)
     rep.functions_encoded.append(fn_path)
     out, n_keep = [], 0
